@@ -74,8 +74,9 @@ def opPfScope (args : List SExp) : Option OpResult := do
       match d with
       | none => pure ⟨"400", mustEqual "C11" "invalid-depth" "400"⟩
       | some d =>
-        let impl := if notFound then "404" else if form = "noform" && !(GoWebdav.Impl.Propfind.scope h path level d).isEmpty then "400" else pr (GoWebdav.Impl.Propfind.scope h path level d)
-        let want := if notFound then "404" else if form = "noform" && !(GoWebdav.Spec.Propfind.scope h path level d).isEmpty then "400" else pr (GoWebdav.Spec.Propfind.scope h path level d)
+        -- a path at which the hierarchy exposes no resource is answered 404 (an empty scope is no multi-status)
+        let impl := if notFound || (GoWebdav.Impl.Propfind.scope h path level d).isEmpty then "404" else if form = "noform" then "400" else pr (GoWebdav.Impl.Propfind.scope h path level d)
+        let want := if notFound || (GoWebdav.Spec.Propfind.scope h path level d).isEmpty then "404" else if form = "noform" then "400" else pr (GoWebdav.Spec.Propfind.scope h path level d)
         pure ⟨impl, mustEqual "C11" (s!"{server}-scope-{match level with | .root => "root" | .principal => "principal" | .homeSet => "homeset" | .collection => "collection" | .object => "object" | .deeper => "deeper"}") want⟩
   | _ => none
 
